@@ -672,9 +672,9 @@ SPECS += [
      replace_expr_where("ArgumentMapping.to_call_info", lambda n: isinstance(n, ast.If) and ast.unparse(n.test) == "self.args_arg",
                         lambda n: ast.If(test=ast.Constant(value=False), body=n.body, orelse=n.orelse)), ["R06.12"]),
     ("C02", "header-expression-in-own-scope", "rope/base/evaluate.py",
-     remove_stmt_where("ScopeNameFinder.get_primary_and_pyname_at", stmt_is("if self._is_in_header_expression(holding_scope, offset)")), ["R02.21"]),
+     remove_stmt_where("ScopeNameFinder.get_primary_and_pyname_at", stmt_is("while self._is_in_header_expression(holding_scope, offset)")), ["R02.21"]),
     ("C01", "header-expression-in-own-scope", "rope/base/evaluate.py",
-     remove_stmt_where("ScopeNameFinder.get_primary_and_pyname_at", stmt_is("if self._is_in_header_expression(holding_scope, offset)")), ["R01.16"]),
+     remove_stmt_where("ScopeNameFinder.get_primary_and_pyname_at", stmt_is("while self._is_in_header_expression(holding_scope, offset)")), ["R01.16"]),
 ]
 SPECS += [
     ("C06", "remover-key-is-a-pair", "rope/refactor/change_signature.py",
@@ -709,3 +709,71 @@ SPECS = [s for s in SPECS if s[1] != "tab-to-four-spaces"]
 
 def specs_for(prop: str) -> List[Spec]:
     return [s for s in SPECS if s[0] == prop]
+
+# the first iterable of a comprehension (fix 3d7aedb)
+def _while_to_if(tree):
+    f = find_func(tree, "ScopeNameFinder.get_primary_and_pyname_at")
+    if f is None:
+        return False
+    for p in ast.walk(f):
+        for fld in ("body", "orelse"):
+            v = getattr(p, fld, None)
+            if isinstance(v, list):
+                for i, st in enumerate(v):
+                    if isinstance(st, ast.While) and "_is_in_header_expression" in ast.unparse(st.test):
+                        v[i] = ast.copy_location(ast.If(test=st.test, body=st.body, orelse=[]), st)
+                        return True
+    return False
+
+
+def _drop_comprehension_branch(tree):
+    f = find_func(tree, "ScopeNameFinder._is_in_header_expression")
+    if f is None:
+        return False
+    for i, st in enumerate(f.body):
+        if isinstance(st, ast.If) and "comprehensions" in ast.unparse(st.test) and st.orelse:
+            f.body[i:i + 1] = st.orelse
+            return True
+    return False
+
+
+def _every_generator(n):
+    return ast.parse("[g.iter for g in node.generators]", mode="eval").body
+
+
+SPECS += [
+    ("C02", "first-iterable-in-the-comprehension-scope", "rope/base/evaluate.py",
+     _drop_comprehension_branch, ["R02.23"]),
+    ("C01", "first-iterable-in-the-comprehension-scope", "rope/base/evaluate.py",
+     _drop_comprehension_branch, ["R01.18"]),
+    ("C02", "every-iterable-evaluated-outside", "rope/base/evaluate.py",
+     replace_expr_where("ScopeNameFinder._is_in_header_expression", _is("[node.generators[0].iter]"), _every_generator), ["R02.23"]),
+    ("C01", "move-to-the-parent-scope-made-once", "rope/base/evaluate.py", _while_to_if, ["R01.18"]),
+    ("C02", "move-to-the-parent-scope-made-once", "rope/base/evaluate.py", _while_to_if, ["R02.23"]),
+]
+
+# the line model (fix ccb5d49)
+SPECS += [
+    ("C03", "joined-lines-cut-with-splitlines", "rope/refactor/extract.py",
+     replace_expr_where("_join_lines", _is("sourceutils.split_lines(code)"), _expr("code.splitlines()")), ["R03.18"]),
+    ("C04", "reindent-cuts-with-splitlines", "rope/refactor/sourceutils.py",
+     replace_expr_where("indent_lines", _is("split_lines(source_code, True)"), _expr("source_code.splitlines(True)")), ["R04.9"]),
+    ("C05", "reindent-cuts-with-splitlines", "rope/refactor/sourceutils.py",
+     replace_expr_where("indent_lines", _is("split_lines(source_code, True)"), _expr("source_code.splitlines(True)")), ["R05.19"]),
+    ("C19", "auto-indent-cuts-with-splitlines", "rope/refactor/restructure.py",
+     replace_expr_where("_ChangeComputer._auto_indent", _is("sourceutils.split_lines(text, True)"), _expr("text.splitlines(True)")), ["R19.15"]),
+    ("C17", "auto-indent-cuts-with-splitlines", "rope/refactor/restructure.py",
+     replace_expr_where("_ChangeComputer._auto_indent", _is("sourceutils.split_lines(text, True)"), _expr("text.splitlines(True)")), ["R17.13"]),
+    ("C14", "minimum-indent-over-splitlines", "rope/refactor/sourceutils.py",
+     replace_expr_where("find_minimum_indents", _is("source_code.split('\\n')"), _expr("source_code.splitlines()")), ["R14.19"]),
+    ("C20", "minimum-indent-over-splitlines", "rope/refactor/sourceutils.py",
+     replace_expr_where("find_minimum_indents", _is("source_code.split('\\n')"), _expr("source_code.splitlines()")), ["R20.16"]),
+]
+
+# builtin modules have no file (fix 927ccf1)
+SPECS += [
+    ("C09", "module-without-a-file-not-refused", "rope/refactor/rename.py",
+     remove_stmt_where("Rename.get_changes", stmt_is("if resource is None")), ["R09.12"]),
+    ("C01", "module-without-a-file-not-refused", "rope/refactor/rename.py",
+     remove_stmt_where("Rename.get_changes", stmt_is("if resource is None")), ["R01.21"]),
+]
